@@ -9,6 +9,7 @@
  * crash at every system-call boundary. */
 #define ECHS_TASK_POOL_INIZ	(2U)
 #define ECHS_CHLD_POOL_INIZ	(2U)
+#define ENV_OWN_SNPRINTF
 #include "echsd_env.h"
 #include <fcntl.h>
 
@@ -110,6 +111,7 @@ static struct tmap_s HT[4];
 void harness(void)
 {
 	sym_load();
+	ENV_INIT();
 	ASSUME(in.ntask >= 0 && in.ntask <= 2 && in.own0 >= 1 && in.own0 <= 2 && in.own1 >= 1 && in.own1 <= 2 && in.dirty >= 1 && in.dirty <= 2);
 	ASSUME(in.fault >= -1 && in.fault < 12 && (in.how == 0 || in.how == 1));
 	fs_fault = (int)in.fault, fs_how = (int)in.how;
